@@ -124,10 +124,21 @@ class Case:
     pass
 
 
+def case_body(line):
+    """`H <hex> <description>` (the dump's bytes, written by write_dump below) -> the description"""
+    return line.split(" ", 2)[2] if line.startswith("H ") else line
+
+
 def parse_case(line):
     t = line.split()
     c = Case()
     p = [0]
+    c.hex = None
+    if t[0] == "H":
+        c.hex = t[1]
+        t = t[2:]
+    c.unprocessable = t[-1] == "NONE"        # H cases only: no thread list / system info / header -> processing must fail
+    c.lacks = t[-2].replace("_", " ") if c.unprocessable else None
 
     def nx():
         v = t[p[0]]
@@ -216,10 +227,214 @@ def canon_unl_model(s):
     return "+".join("%s.%d" % p for p in sorted(pairs))
 
 
+# ----------------------------------------------------------------------------- the plugin's own dump writer (H cases)
+# Written from the Microsoft / Breakpad format documentation, independent of minidump-synth AND of the Coq serializer: both the
+# real reader (Minidump::read) and the reader model (C02 decode_dump) get these bytes.
+# CPU context: (size, offset / width / value of context_flags, offset of ip, offset of sp, register width)
+CTX_LAYOUT = {
+    0: (716, 0, 4, 0x00010007, 184, 196, 4), 10: (716, 0, 4, 0x00010007, 184, 196, 4),     # CONTEXT_X86: eip, esp
+    9: (1232, 48, 4, 0x0010000f, 248, 152, 8),                                             # CONTEXT_AMD64: rip, rsp
+    5: (368, 0, 4, 0x40000002, 64, 56, 4),                                                 # CONTEXT_ARM: iregs[15], iregs[13]
+    12: (912, 0, 4, 0x00400003, 264, 256, 8),                                              # CONTEXT_ARM64: pc, sp
+    0x8003: (796, 0, 8, 0x80000002, 264, 256, 8),                                          # CONTEXT_ARM64_OLD: pc, sp
+    1: (600, 0, 4, 0x00040003, 312, 240, 8),                                               # CONTEXT_MIPS: epc, iregs[29]
+}
+H_ARCHS = [0, 10, 9, 12, 0x8003, 5, 1, 0, 9, 5, 12, 0x8004, 2, 6, 0xffff, 77]          # architectures the writer has a context for, or that have no context reader
+ST_THREADS, ST_MODULES, ST_EXCEPTION, ST_SYSINFO, ST_UNLOADED, ST_MISC, ST_TNAMES = 3, 4, 6, 7, 14, 15, 24
+ST_BREAKPAD, ST_LXSTATUS = 0x47670001, 0x47670004
+
+
+def write_dump(c, rng, dist):
+    """bytes of the dump the case describes; `c` is adjusted to what the dump effectively says when an optional stream is written
+    unreadable (out-of-bounds location), and c.lacks is set when a required stream is left out"""
+    big = bool(c.big_endian)
+    bo = "big" if big else "little"
+    u = lambda n, v: (v & ((1 << (8 * n)) - 1)).to_bytes(n, bo)
+    u16, u32, u64 = (lambda v: u(2, v)), (lambda v: u(4, v)), (lambda v: u(8, v))
+
+    def mdstring(text):
+        b = text.encode("utf-16-be" if big else "utf-16-le")
+        return u32(len(b)) + b + b"\0\0"
+
+    def ctx_bytes(kind, ip, sp):
+        if kind == 0:
+            return None
+        lay = CTX_LAYOUT.get(c.arch)
+        if lay is None:
+            b = bytearray(64)
+        else:
+            size, fo, fw, fv, ipo, spo, rw = lay
+            b = bytearray(size)
+            b[fo:fo + fw] = u(fw, fv)
+            b[ipo:ipo + rw] = u(rw, ip)
+            b[spo:spo + rw] = u(rw, sp)
+            if kind == 2:                # the right size, flags of no architecture
+                b[fo:fo + fw] = bytes(fw)
+        return bytes(b[:16]) if kind == 3 else bytes(b)
+
+    def loc(data, at):
+        return u32(len(data)) + u32(at)
+
+    # every stream: off -> (the stream proper, the out-of-line data it cites, which follows it in the file)
+    def thread_list(threads):
+        def f(off):
+            body, aux = u32(len(threads)), b""
+            at = off + 4 + 48 * len(threads)
+            for t in threads:
+                cb = ctx_bytes(t["ck"], t["ip"], t["sp"])
+                body += u32(t["id"]) + u32(0) + u32(0) + u32(0) + u64(0) + u64(t["sbase"]) + u32(0) + u32(0)
+                if cb is None:
+                    body += u32(0) + u32(0)
+                else:
+                    body += loc(cb, at + len(aux))
+                    aux += cb
+            return body, aux
+        return f
+
+    def thread_names(names):
+        def f(off):
+            body, aux = u32(len(names)), b""
+            at = off + 4 + 12 * len(names)
+            for (tid, readable, nm) in names:
+                if readable:
+                    body += u32(tid) + u64(at + len(aux))
+                    aux += mdstring("n%d" % nm)
+                else:
+                    body += u32(tid) + u64(0 if tid % 2 else 0xfffffff0)      # the header's signature is not a string length; past the end
+            return body, aux
+        return f
+
+    def exception(e):
+        def f(off):
+            cb = ctx_bytes(e["ck"], e["ip"], e["sp"])
+            body = u32(e["tid"]) + u32(0) + u32(e["code"]) + u32(e["flags"]) + u64(0) + u64(e["addr"]) + u32(e["np"]) + u32(0)
+            body += u64(e["i0"]) + u64(e["i1"]) + u64(e["i2"]) + bytes(8 * 12)
+            body += (u32(0) + u32(0)) if cb is None else loc(cb, off + 168)
+            return body, (cb or b"")
+        return f
+
+    def system_info(off):
+        body = u16(c.arch) + u16(6) + u16(0) + bytes([1, 1]) + u32(5) + u32(1) + u32(2600) + u32(c.platform) + u32(off + 56) + u16(0) + u16(0) + bytes(24)
+        return body, mdstring("")
+
+    def module_list(mods):
+        def f(off):
+            body, aux = u32(len(mods)), b""
+            at = off + 4 + 108 * len(mods)
+            for i, (base, size) in enumerate(mods):
+                body += u64(base) + u32(size) + u32(0) + u32(0x50000000) + u32(at + len(aux)) + u32(0xfeef04bd) + u32(0x10000) + bytes(44) + bytes(16) + bytes(16)
+                aux += mdstring("/lib/m%02d.so" % i)
+            return body, aux
+        return f
+
+    def unloaded_list(unl):
+        def f(off):
+            body, aux = u32(12) + u32(24) + u32(len(unl)), b""
+            at = off + 12 + 24 * len(unl)
+            for (base, size, nm) in unl:
+                body += u64(base) + u32(size) + u32(0) + u32(0x50000000) + u32(at + len(aux))
+                aux += mdstring("u%02d" % nm)
+            return body, aux
+        return f
+
+    def misc_info(m):
+        size, flags1, pid, ct = m
+        return lambda off: ((u32(size) + u32(flags1) + u32(pid) + u32(ct) + u32(0) + u32(0) + bytes(max(0, size - 24)))[:size], b"")
+
+    def breakpad_info(form, b):
+        full = u32(b[0]) + u32(b[1]) + u32(b[2])
+        return lambda off: (full[:8] if form == 2 else full + u32(0xdeadbeef) if form == 3 else full, b"")
+
+    streams = []          # (type, builder, written unreadable?)
+    lacks = None
+    st = rng.below(40)
+    if st != 0:
+        streams.append((ST_THREADS, thread_list(c.threads)))
+    else:
+        lacks = "thread_list"
+    if st != 1:
+        streams.append((ST_SYSINFO, system_info))
+    else:
+        lacks = lacks or "system_info"
+    if c.names or rng.chance(1, 2):
+        streams.append((ST_TNAMES, thread_names(c.names)))
+    if c.exc:
+        streams.append((ST_EXCEPTION, exception(c.exc)))
+    if c.mods or rng.chance(1, 2):
+        streams.append((ST_MODULES, module_list(c.mods)))
+    if c.unl or rng.chance(1, 2):
+        streams.append((ST_UNLOADED, unloaded_list(c.unl)))
+    if c.misc_raw:
+        streams.append((ST_MISC, misc_info(c.misc_raw)))
+    if c.bp_form:
+        streams.append((ST_BREAKPAD, breakpad_info(c.bp_form, c.bp_raw)))
+    if c.status:
+        streams.append((ST_LXSTATUS, lambda off, b=c.status[2]: (b, b"")))
+    # any order in the file
+    for i in range(len(streams) - 1, 0, -1):
+        j = rng.below(i + 1)
+        streams[i], streams[j] = streams[j], streams[i]
+    # leading decoys: an EARLIER directory entry of a type that comes again is ignored (the last one is served); unknown stream types
+    decoys = []
+    if rng.chance(1, 3):
+        for _ in range(rng.range(1, 3)):
+            k = rng.below(5)
+            if k == 0 and any(t == ST_THREADS for t, _ in streams):
+                decoys.append((ST_THREADS, thread_list([dict(id=t["id"] ^ 1, ck=1, ip=t["sp"], sp=t["ip"], sbase=0) for t in c.threads[:3]] + [dict(id=4242, ck=0, ip=0, sp=0, sbase=0)])))
+            elif k == 1 and c.exc:
+                decoys.append((ST_EXCEPTION, exception(dict(c.exc, tid=c.exc["tid"] ^ 3, code=c.exc["code"] ^ 1, addr=0x1234, ck=1, ip=0x4444, sp=0x8888))))
+            elif k == 2 and c.bp_form:
+                decoys.append((ST_BREAKPAD, breakpad_info(1, (3, c.bp_raw[2], c.bp_raw[1]))))
+            elif k == 3 and any(t == ST_MODULES for t, _ in streams):
+                decoys.append((ST_MODULES, module_list([(0x1000, 0x1000)])))
+            else:
+                decoys.append((rng.choice([0x4d7a0b0b, 25, 0x8000, 0xffff, 0x12345678]), lambda off: (b"decoy-bytes!", b"")))
+        dist["h_with_leading_duplicates"] = dist.get("h_with_leading_duplicates", 0) + 1
+    entries = decoys + streams
+    # an optional stream whose location lies outside the file is unreadable: the processor goes on without it
+    broken = None
+    if rng.chance(1, 8):
+        cand = [t for t, _ in streams if t in (ST_TNAMES, ST_EXCEPTION, ST_MODULES, ST_UNLOADED, ST_MISC, ST_BREAKPAD)]
+        if cand:
+            broken = rng.choice(cand)
+            dist["h_unreadable_optional_stream"] = dist.get("h_unreadable_optional_stream", 0) + 1
+    pos = 32 + 12 * len(entries)
+    directory, data = b"", b""
+    for i, (ty, build) in enumerate(entries):
+        b, aux = build(pos)
+        directory += u32(ty) + u32(len(b)) + u32(pos)
+        if ty == broken and i >= len(decoys):
+            broken_at = len(directory)
+        data += b + aux
+        pos += len(b) + len(aux)
+    if broken is not None:
+        # ... so make sure it does: the location must end beyond the file, whatever follows it
+        k = broken_at - 12
+        rva = int.from_bytes(directory[k + 8:k + 12], bo)
+        size = 32 + len(directory) + len(data) - rva + 1 + rng.below(16)
+        directory = directory[:k + 4] + u32(size) + directory[k + 8:]
+        # what the dump now says
+        if broken == ST_TNAMES:
+            c.names = []
+        elif broken == ST_EXCEPTION:
+            c.exc = None
+        elif broken == ST_MODULES:
+            c.mods = []
+        elif broken == ST_UNLOADED:
+            c.unl = []
+        elif broken == ST_MISC:
+            c.misc = None
+        elif broken == ST_BREAKPAD:
+            c.bp, c.bp_form = None, 0
+    header = u32(0x504d444d) + u32(0xa793 | (rng.below(1 << 16) << 16)) + u32(len(entries)) + u32(32) + u32(0) + u32(c.time) + u64(0)
+    c.lacks = lacks
+    return header + directory + data
+
+
 class C14(PropBase):
     pid = "C14"
     coq_dirs = ["Base", "C08", "C14"]
-    translators = ["c14_names.py", "c14_reason.py"]
+    translators = ["c14_names.py", "c14_reason.py", "format_layouts.py"]      # format_layouts.py: C02's reader model (imported by C14/Bytes.v) is built on Gen/Layouts.v
     bins = ["c14"]
     rule = ("a case describes a whole dump: CPU architecture x platform id, 0..32 threads (duplicate / missing ids, context valid / "
             "absent / wrong flags / truncated, own stack or null descriptor), thread names (duplicates, unreadable), exception record "
@@ -388,8 +603,8 @@ class C14(PropBase):
         raw = text.encode("utf-8", "surrogateescape") if "\xff" not in text else text.encode("latin-1", "replace")
         return (kind, pid, raw)
 
-    def make_case(self, rng, dist, short_streams=False):
-        arch = rng.choice(ARCHS[:10]) if rng.chance(4, 5) else rng.choice(ARCHS)
+    def make_case(self, rng, dist, short_streams=False, archs=None):
+        arch = rng.choice(archs) if archs else rng.choice(ARCHS[:10]) if rng.chance(4, 5) else rng.choice(ARCHS)
         platform = rng.choice(PLATFORMS[:6]) if rng.chance(4, 5) else rng.choice(PLATFORMS)
         osc = os_class(platform)
         trunc = arch in ARCH_TRUNC
@@ -547,11 +762,40 @@ class C14(PropBase):
     def gen_case(self, rng, dist):
         return self.format_case(self.make_case(rng, dist, short_streams=True))
 
+    def gen_hex_case(self, rng, dist):
+        """`H <hex> <description>`: the dump as BYTES from the plugin's own writer (no memory regions: the model does not read them from
+        the bytes); the model side is C02's reader model composed with C14's, the implementation side Minidump::read + process_minidump"""
+        c = self.make_case(rng, dist, short_streams=True, archs=H_ARCHS)
+        c.mems, c.mem64 = [], 0
+        c.threads = c.threads[:rng.choice([8, 8, 8, 33])]
+        for t in c.threads:
+            t["sidx"] = -1
+        c.misc_raw = c.misc
+        c.bp_raw = c.bp
+        c.bp_form = c.bp_form if c.bp else 0
+        if c.misc and c.misc[0] < 24:
+            c.misc = None
+        if c.bp_form == 2:
+            c.bp = None
+        b = write_dump(c, rng, dist)
+        if c.bp is None:
+            c.bp_form = 0
+        dist["h_cases"] = dist.get("h_cases", 0) + 1
+        dist["h_bytes"] = dist.get("h_bytes", 0) + len(b)
+        line = "H %s %s" % (b.hex(), self.format_case(c))
+        if c.lacks:
+            dist["h_unprocessable"] = dist.get("h_unprocessable", 0) + 1
+            line += " %s NONE" % c.lacks
+        return line
+
     def gen_cases(self, tier, seed):
         rng = Rng(seed)
         dist = {}
         n = 6000 if tier == "quick" else 150000
-        return [self.gen_case(rng, dist) for _ in range(n)], dist, False
+        nh = 500 if tier == "quick" else 6000
+        cases = [self.gen_case(rng, dist) for _ in range(n)]
+        hrng = Rng(seed * 7919 + 17)          # its own stream: the cases above stay what they were
+        return cases + [self.gen_hex_case(hrng, dist) for _ in range(nh)], dist, False
 
     # ------------------------------------------------------------------ canonical forms
     @staticmethod
@@ -574,6 +818,9 @@ class C14(PropBase):
     def canon_impl(self, case, ans, profile):
         if ans.startswith("P;;"):
             return "P;;"
+        if ans == "NONE":
+            return ans
+        case = case_body(case)
         arch = int(case.split(" ", 1)[0]) & 0xffff
         c = parse_case(case)
         d = split_answer(ans)
@@ -594,6 +841,9 @@ class C14(PropBase):
         return x != "-" and int(x.split(":")[1]) not in (25, 26, 27, 29)
 
     def canon_model(self, case, ans):
+        if ans == "NONE":
+            return ans
+        case = case_body(case)
         arch = int(case.split(" ", 1)[0]) & 0xffff
         wsize = 8 if arch in ARCH_WORD8 else 4
         d = split_answer(ans)
@@ -614,6 +864,11 @@ class C14(PropBase):
         if ans.startswith("P;;"):
             return "processing panicked: " + ans[3:200]
         c = parse_case(case)
+        case = case_body(case)
+        if c.unprocessable or ans == "NONE":
+            if c.unprocessable and ans == "NONE":
+                return None
+            return "a dump without %s was processed" % c.lacks if c.unprocessable else "processing failed on a dump with a thread list and a system info stream"
         d = split_answer(ans)
         th = parse_threads(d["T"])
         readable = lambda ck: ck == 1 and c.arch in ARCH_CTX
@@ -853,7 +1108,7 @@ class C14(PropBase):
         out = []
         for prof, answers in ctx["impl"].items():
             for case, a in zip(ctx["cases"], answers):
-                if not a or a.startswith("P;;"):
+                if not a or a.startswith("P;;") or a == "NONE":
                     continue
                 d = split_answer(a)
                 if d["X"] == "-":
